@@ -130,14 +130,24 @@ impl Worker {
         let cpu0 = self.cpu_ticks();
         let tck = unsafe { libc::sysconf(libc::_SC_CLK_TCK) }.max(1) as u64;
         let fd = self.stdout.get_ref().as_raw_fd();
+        let mut last_ticks = 0u64;
+        let mut last_progress = Instant::now();
         loop {
             if self.stdout.buffer().is_empty() {
                 let mut pfd = libc::pollfd { fd, events: libc::POLLIN, revents: 0 };
                 let r = unsafe { libc::poll(&mut pfd, 1, 250) };
                 if r == 0 {
-                    let cpu = (self.cpu_ticks().saturating_sub(cpu0)) / tck;
+                    let ticks = self.cpu_ticks().saturating_sub(cpu0);
+                    let cpu = ticks / tck;
                     let wall = t0.elapsed().as_secs();
-                    if cpu > budget_s || wall > budget_s * 6 + 60 {
+                    // no CPU progress at all for a long wall-clock stretch = blocked (deadlock,
+                    // lost wake-up): the CPU budget would never run out
+                    if ticks != last_ticks {
+                        last_ticks = ticks;
+                        last_progress = Instant::now();
+                    }
+                    let stalled = last_progress.elapsed().as_secs() > 45;
+                    if cpu > budget_s || wall > budget_s * 6 + 60 || stalled {
                         self.kill();
                         return Exec::Hang;
                     }
